@@ -10,6 +10,7 @@ CHECKS = {
                 note="trusted: CasADi SX/instruction API, IR->SMT encoder (validated per run against CasADi's VM), closed-form expm oracles, Weierstrass/stereographic charts, z3; real arithmetic (no IEEE rounding); SE_2(3)/Euler exp cut at from_Matrix (lemma: C01/C07)."),
 }
 NA = {
+ "C17": "closed-loop stability of a 17-state nonlinear loop over 10^3-3*10^3 controller/plant steps is not a bounded SMT question (no unrolling of transcendental dynamics of that length is within reach of z3/cvc5, and no inductive Lyapunov certificate for the shipped gains exists to check); per the brief the technique is not switched. Necessary one-step facts are decided under C13 (mixer), C14/C15 (controllers) and C16 (plant).",
 }
 CHECKS["C01"] = dict(cat="proof", design="§3 C01",
     text="Product/inverse/identity/to_Matrix/from_Matrix of every exposed group and three direct products are executed on CasADi symbols; homomorphism, two-sided inverse, identity, neutrality, associativity and the from_Matrix right-inverse law are proved per matrix entry as polynomial/rational identities on rational charts of the group manifolds (all elements except measure-zero chart points covered by a second chart).",
@@ -56,6 +57,16 @@ CHECKS["C09"] = dict(cat="translation_validation", design="§3 C09, §1.7",
 CHECKS["C14"] = dict(cat="proof", design="§3 C14",
     text="Internal vectors of the shipped derive_* functions are observed by call-through recording (norm_2, cross, from_Matrix) and exposed through an auxiliary Function over the shipped function's own inputs. Per branch cell: the matrix handed to the quaternion extraction is orthonormal with det 1 (position_control, se23_position_control, f_ref, mr_ref_traj, input_auto_level, eulerB321_to_quat); z-axis times thrust magnitude equals the demanded force and thrust = |force|; y-axis perpendicular to the heading; flatness references: thrust = m(g e3 - a), (dz_b/da) j = q x_b - p y_b with CasADi AD of the real code, M_b congruent (QF_UF) to J w' + w x J w; yaw-rate output defined on every cell. Unit quaternion follows from the re-discharged Shepperd leaf lemma. Four genuine defects in degenerate cells are recorded as known findings K1-K4.",
     note="trusted: as C07 + call-through recording + CasADi AD. Bounds: camera quaternion pure yaw (any yaw); attitude-error part of zeta zero in se23_position_control. NOT decided: agreement of f_ref with mr_ref_traj beyond both meeting the same oracles (instruction lists not congruent), yaw acceleration r_dot, cells the solver cannot exclude but whose models do not reach them on the real code (counted in evidence).")
+CHECKS["C11"] = dict(cat="other", design="§3 C11 (Part II §7)",
+    text="PARTIAL. Decided for all inputs of the stated cells: an accelerometer correction that reports a non-zero error code returns x and W unchanged (both sides of the magnitude gate); predict returns the real shadow switch applied to its RK4 step (QF_UF congruence) hence |r1| <= 1 by the re-discharged shadow lemma, leaves the bias unchanged, has a structurally lower-triangular W1, and its MRP step matches the exact flow of r' = B(r)(omega - b) to fourth order (dt-derivatives at 0 equal the Lie derivatives up to order 4, with CasADi AD on the real predict).",
+    note="NOT decided (stated in evidence): rejection through the magnetometer gates, exactness of initialize, finiteness of the covariance step for every well-conditioned W, P+ <= P for accepted corrections (6-state symbolic QR out of reach; the identities are C10's for n_x <= 2). 'Bit-for-bit' is decided as equality over the reals.")
+CHECKS["C12"] = dict(cat="other", design="§3 C12 (Part II §7)",
+    text="PARTIAL - the convergence claim itself is NOT decided (outside the reach of bounded solver-based checking; no certificate). Decided necessary conditions: simulator sensor models (accelerometer = M(r)^T(-g e3) with norm g; gyro = omega + bias; magnetometer at zero declination/inclination = M(r)^T (s e1) with norm s) for all MRPs, and the truth is a fixed point of the accelerometer correction (zero innovation, error code 0) for all attitudes and 9.5 <= g <= 10.1. These catch wrong-magnitude / wrong-frame measurements (the 'everything rejected' failure the property text mentions).",
+    note="explanation-level claim only: closed-loop convergence over 10^3-10^4 steps, magnetometer model with non-zero declination/inclination and the magnetometer fixed point are listed as not decided.")
+CHECKS["C20"] = dict(cat="model_checking", design="§3 C20",
+    text="CrossHair (symbolic execution of Python with z3) drives the real uros Core/Publisher/Subscriber/Param classes and the real AttitudeEstimator node: delivery log equals the reference log (exactly once, synchronously, in publication and subscription order, only to subscribers of the topic) for all assignments of <= 2 subscribers and <= 3 publications over 3 topics; wrong message type raises ValueError and reaches nobody; after set_param every node following the parameter topic sees the value (<= 3 updates); the estimator never predicts with dt <= 0 and spaces accel/mag corrections by at least dt_min - 1 ms for any <= 3 callbacks with arbitrary times in [0,100]. Only 'Confirmed over all paths' counts; each function has a reachability twin that must be refuted.",
+    note="trusted: CrossHair + z3; CasADi kernels replaced by recording stubs; status/attitude messages dict-backed. NOT decided: the Logger's periodic snapshot (simpy process), larger histories (thorough: 3 subscribers x 4 publications, 4 callbacks).",
+    tech="solver-based checking of the real Python code: CrossHair symbolic execution (z3), path-exhaustive within the stated bounds, counterexamples replayed by concrete calls")
 CHECKS["C04"] = dict(cat="proof", design="§3 C04",
     text="Ad/ad/bracket of every group/algebra executed symbolically; (Ad_X y)^ = M(X) y^ M(X^-1), Ad homomorphism and inverse, ad = bracket = matrix commutator, antisymmetry, Jacobi, block-diagonal direct-sum ad, and Ad_exp(x) = expm(ad_x) in closed form (Rodrigues / Barfoot quartic) are proved per entry; wrong shapes and crashes of offered operations are violations.",
     note="trusted: as C01 plus the closed forms of expm(ad) and the theorem Ad_{exp A} = expm(ad_A) (used for SE_2(3)/Euler where exp ends in from_Matrix). Operations raising NotImplementedError are out of scope as the property states.")
